@@ -18,10 +18,11 @@ from ..core import Family, cps, uncps
 
 ID = "C19"
 READY = True
-LEAN_TARGETS = ["NauyacaVerif.Props.C19"]
+LEAN_TARGETS = ["NauyacaVerif.Props.C19", "NauyacaVerif.Props.Tr.ParseUrl"]
+TRANSLATED = ["parseUrl"]
 THEOREMS = [f"NauyacaVerif.C19.{t}" for t in (
     "norm_accepted_partial", "norm_same_partial", "norm_idem_partial", "norm_idem_plain_partial",
-    "wire_roundtrip_partial", "tail_canonical", "defaultPort_tie", "maxRequest_tie")]
+    "wire_roundtrip_partial", "tail_canonical", "defaultPort_tie", "maxRequest_tie")] + ["NauyacaVerif.Translated.parseUrl_eq"]
 EXTRACT = ["defaultPort", "maxRequest"]
 ASSUMPTIONS = [
     "urllib.parse of the interpreter in /venv (3.12.1) is what Url.urlsplit ports; ipaddress.ip_address / the IPvFuture regex on a bracketed host and the NFKC check on a non-ASCII authority are opaque (passed to the model per case as oracle bits); str.lower is modelled as ASCII lower-casing",
